@@ -67,16 +67,9 @@ Lemma fs_lookup_ext s s' o : fs s' = fs s -> fs_lookup s' o = fs_lookup s o.
 Proof. unfold fs_lookup. intros ->. reflexivity. Qed.
 
 (* ================================================================== keys *)
+(* (the key_domain hypothesis is no longer needed: DiskFacts.put_never_null; kept for the callers) *)
 Lemma put_nonnull c k dbk raw : key_domain k = true -> put c k = PutOk dbk raw -> dbk <> SNull.
-Proof.
-  intros D. rewrite put_spec. destruct k as [z|f|s|b|i|b]; cbn in D.
-  - destruct (in_int64 z); intros E; inversion E; discriminate.
-  - destruct f; try discriminate; intros E; inversion E; discriminate.
-  - destruct (encodable s); intros E; inversion E; discriminate.
-  - intros E; inversion E; discriminate.
-  - intros E; inversion E; discriminate.
-  - discriminate.
-Qed.
+Proof. intros _ P. exact (proj1 (put_never_null c k dbk raw P)). Qed.
 
 (* a row carrying database key (k1, r1) is not addressed by a different database key *)
 Lemma db_same_false_row k1 r1 k2 r2 n :
@@ -780,7 +773,7 @@ Proof.
   destruct (filter (key_match dbk (b2z raw)) (rows s)) as [|r0 rs] eqn:F; cbv beta iota zeta.
   - assert (Hk : forall r, In r (rows s1) -> key_match dbk (b2z raw) r = false).
     { rewrite R1. intros r I. eapply filter_nil_none; eauto. }
-    destruct (pinv_columns_insert s1 _ dbk raw now (expire_at now e) tag sd fid H1 Hk Wk Fok) as [H2 [_ [E2 _]]].
+    destruct (pinv_columns_insert s1 _ dbk raw now (expire_at now e) tag sd fid H1 Hk Wk (put_key_nonnull _ _ _ _ P) Fok) as [H2 [_ [E2 _]]].
     set (n := columns_insert dbk raw now (expire_at now e) tag sd fid (next_rowid (rows s1))) in *.
     set (s2 := t_insert (columns_insert dbk raw now (expire_at now e) tag sd fid) s1) in *.
     pose proof (view_tail c now pg s2 _ [] ([] ++ snd (cull c now pg s2)) dbk (b2z raw) n (s_file sd) H2 Wk) as T. cbv zeta in T.
@@ -874,7 +867,7 @@ Section OtherCull.
     destruct (filter (key_match dbk1 (b2z raw1)) (rows s)) as [|r0 rs] eqn:F; cbv beta iota zeta.
     - assert (Hk : forall r, In r (rows s1) -> key_match dbk1 (b2z raw1) r = false).
       { rewrite R1. intros r I. eapply filter_nil_none; eauto. }
-      destruct (pinv_columns_insert s1 _ dbk1 raw1 now (expire_at now e) tag sd fid H1 Hk (put_wf _ _ _ _ P1) Fok) as [H2 _].
+      destruct (pinv_columns_insert s1 _ dbk1 raw1 now (expire_at now e) tag sd fid H1 Hk (put_wf _ _ _ _ P1) (put_key_nonnull _ _ _ _ P1) Fok) as [H2 _].
       set (s2 := t_insert (columns_insert dbk1 raw1 now (expire_at now e) tag sd fid) s1) in *.
       pose proof (view_tail_any c now pg s2 _ [] ([] ++ snd (cull c now pg s2)) dbk2 (b2z raw2) H2 Wk) as T. cbv zeta in T.
       destruct (cull c now pg s2) as [s3 cl2] eqn:C. cbn [fst snd] in *.
